@@ -867,6 +867,7 @@ func isUnknownSpec(a predOutcome) predOutcome {
 //@ ensures [C16] array-unwrap: is[[]any](value) && unwrap ==> ncalls(exec.executeItemUnwrapTargetArray) == 1 && ncalls(exec.executeNextItem) == 0
 //@ ensures [C16] array-strict: is[[]any](value) && !unwrap ==> r0 == statusFailed && ncalls(exec.executeNextItem) == 0
 //@ ensures [C06 C16] result-comes-from-continuation: r0 != statusFailed && !(is[[]any](value) && unwrap) ==> ncalls(exec.executeNextItem) == 1 && r0 == callret[resultStatus](exec.executeNextItem, 0) && r1 == callret[error](exec.executeNextItem, 1)
+//@ ensures [C08 C10 C16] refusal-suppressible: ncalls(exec.executeNextItem) == 0 && !(is[[]any](value) && unwrap) ==> r0 == statusFailed && (r1 == nil || errIs(r1, ErrVerbose))
 
 //@ func (*Executor).execMethodInteger
 //@ alsoprops E3 C16
@@ -880,6 +881,9 @@ func isUnknownSpec(a predOutcome) predOutcome {
 //@ ensures [C16] float-accepted-in-range: is[float64](value) && !isNaN(as[float64](value)) && roundHalfAway(as[float64](value)) >= -2147483648.0 && roundHalfAway(as[float64](value)) <= 2147483647.0 ==> ncalls(exec.executeNextItem) == 1
 //@ ensures [C16] domain: !(is[[]any](value) || is[int64](value) || is[float64](value) || is[json.Number](value) || is[string](value)) ==> r0 == statusFailed && ncalls(exec.executeNextItem) == 0
 //@ ensures [C06 C16] result-comes-from-continuation: r0 != statusFailed && !(is[[]any](value) && unwrap) ==> ncalls(exec.executeNextItem) == 1 && r0 == callret[resultStatus](exec.executeNextItem, 0) && r1 == callret[error](exec.executeNextItem, 1)
+//@ ensures [C08 C10 C16] refusal-suppressible: ncalls(exec.executeNextItem) == 0 && !(is[[]any](value) && unwrap) ==> r0 == statusFailed && (r1 == nil || errIs(r1, ErrVerbose))
+//@ ensures [C16] number-int-identity: is[json.Number](value) && uninterp[bool]("jnIsInt", string(as[json.Number](value))) && ncalls(exec.executeNextItem) == 1 ==> callarg[any](exec.executeNextItem, "value") == any(uninterp[int64]("jnInt", string(as[json.Number](value))))
+//@ ensures [C16] number-rounds-half-away: is[json.Number](value) && !uninterp[bool]("jnIsInt", string(as[json.Number](value))) && ncalls(exec.executeNextItem) == 1 ==> uninterp[bool]("jnIsFloat", string(as[json.Number](value))) && callarg[any](exec.executeNextItem, "value") == any(f2iTrunc(roundHalfAway(uninterp[float64]("jnFloat", string(as[json.Number](value))))))
 
 //@ func (*Executor).execMethodBigInt
 //@ alsoprops E3 C16
@@ -892,6 +896,10 @@ func isUnknownSpec(a predOutcome) predOutcome {
 //@ ensures [C16] result-int: ncalls(exec.executeNextItem) == 1 ==> is[int64](callarg[any](exec.executeNextItem, "value"))
 //@ ensures [C16] domain: !(is[[]any](value) || is[int64](value) || is[float64](value) || is[json.Number](value) || is[string](value)) ==> r0 == statusFailed && ncalls(exec.executeNextItem) == 0
 //@ ensures [C06 C16] result-comes-from-continuation: r0 != statusFailed && !(is[[]any](value) && unwrap) ==> ncalls(exec.executeNextItem) == 1 && r0 == callret[resultStatus](exec.executeNextItem, 0) && r1 == callret[error](exec.executeNextItem, 1)
+//@ ensures [C08 C10 C16] refusal-suppressible: ncalls(exec.executeNextItem) == 0 && !(is[[]any](value) && unwrap) ==> r0 == statusFailed && (r1 == nil || errIs(r1, ErrVerbose))
+//@ ensures [C16] number-int-identity: is[json.Number](value) && uninterp[bool]("jnIsInt", string(as[json.Number](value))) ==> ncalls(exec.executeNextItem) == 1 && callarg[any](exec.executeNextItem, "value") == any(uninterp[int64]("jnInt", string(as[json.Number](value))))
+//@ ensures [C16] number-in-int64-range: is[json.Number](value) && !uninterp[bool]("jnIsInt", string(as[json.Number](value))) && ncalls(exec.executeNextItem) == 1 ==> uninterp[bool]("jnIsFloat", string(as[json.Number](value))) && f2iInRange64(roundHalfAway(uninterp[float64]("jnFloat", string(as[json.Number](value))))) && callarg[any](exec.executeNextItem, "value") == any(f2iTrunc(roundHalfAway(uninterp[float64]("jnFloat", string(as[json.Number](value))))))
+//@ ensures [C16] number-out-of-range: is[json.Number](value) && !uninterp[bool]("jnIsInt", string(as[json.Number](value))) && (!uninterp[bool]("jnIsFloat", string(as[json.Number](value))) || !f2iInRange64(uninterp[float64]("jnFloat", string(as[json.Number](value))))) ==> ncalls(exec.executeNextItem) == 0
 
 //@ func (*Executor).execMethodBoolean
 //@ alsoprops E3 C16
@@ -904,6 +912,7 @@ func isUnknownSpec(a predOutcome) predOutcome {
 //@ ensures [C16] result-bool: ncalls(exec.executeNextItem) == 1 ==> is[bool](callarg[any](exec.executeNextItem, "value"))
 //@ ensures [C16] domain: !(is[[]any](value) || is[bool](value) || is[int64](value) || is[float64](value) || is[json.Number](value) || is[string](value)) ==> r0 == statusFailed && ncalls(exec.executeNextItem) == 0
 //@ ensures [C06 C16] result-comes-from-continuation: r0 != statusFailed && !(is[[]any](value) && unwrap) ==> ncalls(exec.executeNextItem) == 1 && r0 == callret[resultStatus](exec.executeNextItem, 0) && r1 == callret[error](exec.executeNextItem, 1)
+//@ ensures [C08 C10 C16] refusal-suppressible: ncalls(exec.executeNextItem) == 0 && !(is[[]any](value) && unwrap) ==> r0 == statusFailed && (r1 == nil || errIs(r1, ErrVerbose))
 
 //@ func execBooleanString
 //@ props C16
@@ -924,6 +933,7 @@ func isUnknownSpec(a predOutcome) predOutcome {
 //@ ensures [C16 C18] datetime-prints-as-String: is[types.DateTime](value) ==> ncalls(exec.executeNextItem) == 1 && callarg[any](exec.executeNextItem, "value") == any(as[types.DateTime](value).String())
 //@ ensures [C16] domain: value == nil || is[map[string]any](value) ==> r0 == statusFailed && ncalls(exec.executeNextItem) == 0 && (r1 == nil || errIs(r1, ErrVerbose))
 //@ ensures [C06 C16] result-comes-from-continuation: r0 != statusFailed && !(is[[]any](value) && unwrap) ==> ncalls(exec.executeNextItem) == 1 && r0 == callret[resultStatus](exec.executeNextItem, 0) && r1 == callret[error](exec.executeNextItem, 1)
+//@ ensures [C08 C10 C16] refusal-suppressible: ncalls(exec.executeNextItem) == 0 && !(is[[]any](value) && unwrap) ==> r0 == statusFailed && (r1 == nil || errIs(r1, ErrVerbose))
 
 //@ func (*Executor).executeNumericItemMethod
 //@ alsoprops E3 C16
@@ -933,6 +943,7 @@ func isUnknownSpec(a predOutcome) predOutcome {
 //@ ensures [C16] int: is[int64](value) && as[int64](value) != -9223372036854775808 ==> ncalls(exec.executeNextItem) == 1 && callarg[any](exec.executeNextItem, "value") == any(dynret[int64](intCallback, 0, as[int64](value)))
 //@ ensures [C16] float: is[float64](value) ==> ncalls(exec.executeNextItem) == 1 && callarg[any](exec.executeNextItem, "value") == any(dynret[float64](floatCallback, 0, as[float64](value)))
 //@ ensures [C16] domain: !(is[[]any](value) || is[int64](value) || is[float64](value) || is[json.Number](value)) ==> r0 == statusFailed && ncalls(exec.executeNextItem) == 0 && (r1 == nil || errIs(r1, ErrVerbose))
+//@ ensures [C08 C10 C16] refusal-suppressible: ncalls(exec.executeNextItem) == 0 && !(is[[]any](value) && unwrap) ==> r0 == statusFailed && (r1 == nil || errIs(r1, ErrVerbose))
 
 //@ func (*Executor).executeDecimalMethod
 //@ props C16 C08
